@@ -74,6 +74,10 @@ def run(ctx: Ctx):
         ci = repo.cls(cq)
         fit = ci.methods.get("fit")
         predict = ci.methods.get("predict")
+        if fit is not None and predict is not None:
+            from ..inline import with_inlined
+
+            fit, predict = with_inlined(repo, fit), with_inlined(repo, predict)  # private methods are expanded
         if fit is None or predict is None:
             raise AnalysisError(f"{cq}: fit / predict vanished")
         for v in spec["model"] + spec["derived"]:
@@ -93,6 +97,10 @@ def run(ctx: Ctx):
             if isinstance(s, ast.Assign) and len(s.targets) == 1 and isinstance(s.targets[0], ast.Attribute) and is_name(s.targets[0].value, fit.self_name):
                 stores[s.targets[0].attr] = s
         def is_pair(e):
+            from ..common import inline_locals
+
+            if isinstance(e, ast.Name) and e.id not in pair:
+                e = inline_locals(fit.node, e, depth=1)  # tucker_weight = (G, W); self.tucker_weight_ = tucker_weight
             return isinstance(e, ast.Tuple) and tuple(src(x) for x in e.elts) == pair
         # weight_tensor_ = to_tensor((pair))
         wt_defs = [s for s in own_scope_nodes(fit.node) if isinstance(s, ast.Assign) and any(is_name(t, "weight_tensor_") for t in s.targets)]
